@@ -16,6 +16,23 @@ NOTES = ('Every check executes the implementation in /repo/src (working tree) '
          'DESIGN.md.')
 
 CHECKS = [
+    {'id': 'C04', 'engine': 'explore', 'level': 'exploration',
+     'design_ref': 'DESIGN.md §4 C04',
+     'technique': 'bounded exhaustive enumeration of fault placements (test '
+                  'phase x exception class x position x layer hook) x option '
+                  'vectors on the real Runner, trace + result-list oracle',
+     'text': 'In 6 layer shapes every placement of <=1 (thorough: 2) faulty '
+             'tests - raising in setUp, body (9 exception classes incl. one '
+             'whose __str__ raises), subtests, tearDown, cleanup, two-event '
+             'tests, SystemExit - and <=1 failing layer hook is run with '
+             '--buffer on/off, -v 0..3 (quick: 0,2), sequentially and with '
+             '-j2; the run must return, every other runnable test must run '
+             'exactly once, every layer must be torn down, each layer that '
+             'ran must have its summary and the failure/error lists must name '
+             'exactly the faulty tests and layers.',
+     'note': 'KeyboardInterrupt and MemoryError are deliberately not contained '
+             'by the runner and are outside the property; post-mortem mode is '
+             'not explored.'},
     {'id': 'C16', 'engine': 'explore', 'level': 'exploration',
      'design_ref': 'DESIGN.md §4 C16',
      'technique': 'bounded exhaustive enumeration of first-bad-item positions '
@@ -82,7 +99,7 @@ CHECKS = [
              'nodes use whatever id() order the interpreter gives.'},
 ]
 
-_PENDING = ['C02', 'C03', 'C04', 'C06', 'C07', 'C08', 'C09',
+_PENDING = ['C02', 'C03', 'C06', 'C07', 'C08', 'C09',
             'C10', 'C11', 'C12', 'C13', 'C14', 'C15', 'C17', 'C18',
             'C19']
 _DONE = {c['id'] for c in CHECKS}
